@@ -17,12 +17,18 @@ from gvmon.monitors import contracts
 FORMS = ["path", "gz", "string", "list", "generator", "iterator_object", "DataIterator", "FeatureDB", "symlink_gz", "symlink_plain"]
 RULE = ("uniform-regime annotations of 0..25 lines in the 48 dialect points; each supplied in 10 input forms (path, .gz, symlink named .gz to a gzip blob without suffix, symlink named .gff to a "
         "plain file whose own name ends in .gz, from_string, list of Features, one-shot generator, __next__ object, DataIterator, FeatureDB) x checklines in "
-        "{0,1,2,n-1,n,n+1,n+2}: yielded sequence == the file's lines, database content dump == reference import; a "
+        "{0,1,2,n-1,n,n+1,n+2}: yielded sequence == the file's lines, database content dump == reference import; "
+        "late-key annotations (uniform spelling, further attribute keys first appearing on later lines; the FeatureDB input built with a look-ahead of "
+        "its own) in all forms: database dump, iterator dialect and feature text under keep_order == the path form read with the same checklines; a "
         "recording transform (modify / skip by falsy values) and inspect() with random look_for subsets and limits in "
         "{None,1,n-1,n,n+3}; non-trivial = n >= 3; distinct by (annotation text, form, checklines class)")
 REQUIRED = ["sparse-regime form comparisons", "form sequences compared", "databases compared", "one-shot pulls logged", "transform calls recorded",
             "inspect results compared", "in-place edits of features with identical attribute columns compared", "transforms that raise: outcomes observed", "sources that raise: outcomes observed", "what a transform saw compared across input forms",
-            "sources that raise inside the look-ahead window", "large look-ahead windows: one-shot forms compared with the path form"] + ["form=" + f for f in FORMS]
+            "sources that raise inside the look-ahead window", "large look-ahead windows: one-shot forms compared with the path form",
+            "late-key regime: form comparisons against the path form with the same checklines",
+            "late-key regime: iterator dialects and ordered feature texts compared with the path form",
+            "late-key regime: FeatureDB source built with another look-ahead than the one asked for",
+            "late-key regime: attribute keys that first appear after the first line"] + ["form=" + f for f in FORMS]
 ASSUMPTIONS = [
     "annotations are written in the uniform regime, so every window infers the same dialect and all forms are comparable",
     "for GTF annotations the FeatureDB form is a database built without inference (its content is then the plain annotation)",
@@ -94,6 +100,25 @@ def make_source(ctx, form, paths, text, ck, pulls, transform=None):
 def norm_dump(d):
     return {"features": d["features"], "relations": d["relations"], "dialect": d["meta"][0][0] if d["meta"] else None,
             "autoincrements": d["autoincrements"], "duplicates": d["duplicates"]}
+
+
+def _plain_dialect(d):
+    return None if d is None else {k: (list(v) if isinstance(v, (list, tuple)) else v) for k, v in dict(d).items()}
+
+
+def _ordered_text(feats):
+    """The printed line of each yielded feature when it is asked to print its attributes in its dialect's key order."""
+    out = []
+    for f in feats:
+        old = f.keep_order
+        f.keep_order = True
+        try:
+            out.append(str(f))
+        except Exception as ex:
+            out.append("raised %s" % type(ex).__name__)
+        finally:
+            f.keep_order = old
+    return out
 
 
 def execute(ctx, case):
@@ -173,6 +198,10 @@ def forms(ctx, case):
     text, lines, paths = prepare_files(ctx, case)
     n = len(lines)
     sparse = case.get("regime") == "sparse"
+    # late-key regime: uniform spelling, but attribute keys that first appear on later lines, so that dialect['order'] is a
+    # function of the look-ahead window; every form is judged against the path form read with the SAME checklines
+    late = case.get("regime") == "latekeys"
+    path_seen = {}
     recs = [it["rec"] for it in case["items"] if it["t"] == "feat"]
     try:
         if sparse:
@@ -180,7 +209,8 @@ def forms(ctx, case):
         ref = None
         if n:
             try:
-                gffutils.create_db(paths["plain"], paths["srcdb"], disable_infer_genes=True, disable_infer_transcripts=True).conn.close()
+                gffutils.create_db(paths["plain"], paths["srcdb"], checklines=case.get("src_ck", 10),
+                                   disable_infer_genes=True, disable_infer_transcripts=True).conn.close()
                 rdb = gffutils.create_db(paths["plain"], paths["ref"])
                 ref = norm_dump(dbdump.dump_db(rdb))
                 ref_directives = list(rdb.directives)
@@ -200,6 +230,7 @@ def forms(ctx, case):
                         if form == "path":
                             ctx.skip("sparse annotation: reference vote does not recover the dialect for this checklines")
                         continue
+                if (sparse or late) and n:
                     if ck not in sparse_refs:
                         try:
                             rdb = gffutils.create_db(paths["plain"], ":memory:", checklines=ck)
@@ -209,14 +240,17 @@ def forms(ctx, case):
                             ctx.violation(case, dict(tag, why="reference import raised %r" % (ex,), text=text))
                             return
                     ref = sparse_refs[ck]
-                    ctx.mon("sparse-regime form comparisons")
+                    ctx.mon("sparse-regime form comparisons" if sparse else "late-key regime: form comparisons against the path form with the same checklines")
                 # --- sequence through DataIterator
                 pulls = []
                 try:
                     data, kw = make_source(ctx, form, paths, text, ck, pulls)
                     it = DataIterator(data, checklines=ck, **kw)
                     pulled_before = len(pulls)
-                    seq = [str(f) for f in it]
+                    seq, yielded = [], []
+                    for f in it:
+                        seq.append(str(f))
+                        yielded.append(f)
                 except Exception as ex:
                     ctx.violation(case, dict(tag, why="DataIterator raised %r" % (ex,), text=text))
                     return
@@ -235,6 +269,20 @@ def forms(ctx, case):
                         ctx.violation(case, dict(tag, why="one-shot source was not pulled exactly once per item in order", pulls=pulls, n=n))
                         return
                     ctx.monitors["max pulls before first yield"] = max(ctx.monitors["max pulls before first yield"], pulled_before)
+                if late and n:
+                    obs = {"dialect": _plain_dialect(it.dialect), "ordered_text": _ordered_text(yielded)}
+                    if form == "path":
+                        path_seen[ck] = obs
+                    elif ck in path_seen:
+                        ctx.mon("late-key regime: iterator dialects and ordered feature texts compared with the path form")
+                        if form == "FeatureDB" and case.get("src_ck", 10) != ck:
+                            ctx.mon("late-key regime: FeatureDB source built with another look-ahead than the one asked for")
+                        for what in ("dialect", "ordered_text"):
+                            if obs[what] != path_seen[ck][what]:
+                                ctx.violation(case, dict(tag, why="the %s form and the path form, read with the same checklines, give another %s"
+                                                         % (form, "iterator dialect" if what == "dialect" else "feature text under keep_order"),
+                                                         got=obs[what], path_form=path_seen[ck][what], src_ck=case.get("src_ck", 10), text=text))
+                                return
                 if form in ("path", "gz", "string") and n and list(it.directives) != ref_directives:
                     ctx.violation(case, dict(tag, why="directives differ between file-like forms", got=list(it.directives), expected=ref_directives))
                     return
@@ -677,8 +725,54 @@ def annotation(rng, nmax=25, lineno=False, sparse=False):
     return D, F.decorate(rng, recs)
 
 
+def late_key_annotation(rng):
+    """A uniform-regime annotation (every line exhibits the whole spelling) in which further attribute keys first appear on
+    later lines, at any position after the leading key(s): the voted spelling is the same for every window, the key order
+    of the dialect is not."""
+    from gvmon.gen import records as R
+    D = rng.choice(M.points())
+    n = rng.choice([3, 4, 5, 6, 8, 11, 12, 13, 16])
+    recs = F.uniform_records(rng, D, n, ids="unique", coords=True)
+    used = sorted(set(k for r in recs for k, _ in r["attrs"]) | set(["ID", "Parent", "gene_id", "transcript_id"]))
+    lead = 2 if D["fmt"] == "gtf" else 1
+    escaped = M.escapes(D)
+    nlate = 0
+    for i, r in enumerate(recs):
+        if D["fmt"] == "gtf" and r["featuretype"] == "exon":
+            for c in ("start", "end"):
+                if r[c] == ".":
+                    r[c] = "500"
+            if int(r["start"]) > int(r["end"]):
+                r["start"], r["end"] = r["end"], r["start"]
+        if i == 0 or rng.random() < 0.35:
+            continue
+        for _ in range(rng.choice([1, 1, 2])):
+            k = R.key(rng, wordlike=True, used=used)
+            used.append(k)
+            pos = rng.randrange(min(lead, len(r["attrs"])), len(r["attrs"]) + 1)
+            r["attrs"].insert(pos, [k, [R.value(rng, escaped=escaped)]])
+            nlate += 1
+    return D, F.decorate(rng, recs), nlate
+
+
 def run(ctx):
     rng = ctx.rng
+    late_forms = [f for f in FORMS if not f.startswith("symlink")]
+    for _ in range(ctx.budget(28, 1400)):
+        D, items, nlate = late_key_annotation(rng)
+        n = sum(1 for it in items if it["t"] == "feat")
+        cks = sorted(set([0, 1, 2, max(0, n - 1), n, n + 1, n + 2, 10]))
+        if ctx.tier == "quick":
+            cks = sorted(set(rng.sample(cks, 3) + [rng.choice([0, 1, 2])]))
+        # the database handed in as input was itself built with some look-ahead: the default, none, or the whole file
+        case = {"kind": "forms", "D": D, "items": items, "forms": late_forms, "cks": cks, "regime": "latekeys", "bom": False,
+                "src_ck": rng.choice([10, 10, 0, 2, n + 2])}
+        execute(ctx, case)
+        ctx.mon("late-key regime: attribute keys that first appear after the first line", nlate)
+        text = F.text_of(items, D)
+        for form in late_forms:
+            for ck in cks:
+                ctx.case((text, form, ck, case["src_ck"]), nlate > 0, cls="late keys: %s" % form)
     for _ in range(ctx.budget(120, 6000)):
         sparse = rng.random() < 0.3
         D, items = annotation(rng, sparse=sparse)
